@@ -179,6 +179,8 @@ type FlowSpec struct {
 	Size  func(i int) int
 	// Gap is slept before the i-th Send (nil = none).
 	Gap func(i int) time.Duration
+	// RecvGap is slept before the i-th Recv (nil = none): a slow consumer.
+	RecvGap func(i int) time.Duration
 }
 
 // RecvRec is one message returned by Recv.
@@ -206,6 +208,10 @@ type FlowResult struct {
 	// goroutine has returned from its last call.
 	SenderDone   atomic.Bool
 	ReceiverDone atomic.Bool
+	// InSend / InRecv are true while the application goroutine is inside
+	// the respective call.
+	InSend atomic.Bool
+	InRecv atomic.Bool
 	mu           sync.Mutex
 }
 
@@ -239,7 +245,9 @@ func RunFlow(from, to *gbn.GoBackNConn, spec FlowSpec, t0 time.Time) (*FlowResul
 					time.Sleep(g)
 				}
 			}
+			res.InSend.Store(true)
 			err := from.Send(MsgBytes(spec.Dir, i, spec.Size(i)))
+			res.InSend.Store(false)
 			res.mu.Lock()
 			if err != nil {
 				res.SendErr, res.SendErrAt = err, i
@@ -255,8 +263,16 @@ func RunFlow(from, to *gbn.GoBackNConn, spec FlowSpec, t0 time.Time) (*FlowResul
 	go func() {
 		defer wg.Done()
 		defer res.ReceiverDone.Store(true)
+		var prev []byte
 		for i := 0; i < spec.Count; i++ {
+			if spec.RecvGap != nil {
+				if g := spec.RecvGap(i); g > 0 {
+					time.Sleep(g)
+				}
+			}
+			res.InRecv.Store(true)
 			b, err := to.Recv()
+			res.InRecv.Store(false)
 			now := time.Since(t0)
 			res.mu.Lock()
 			if err != nil {
@@ -264,6 +280,14 @@ func RunFlow(from, to *gbn.GoBackNConn, spec FlowSpec, t0 time.Time) (*FlowResul
 				res.mu.Unlock()
 				return
 			}
+			// The previous result must still hold what it held when it
+			// was returned (the application owns it).
+			if i > 0 && len(res.Recv) == i && res.Recv[i-1].OK &&
+				string(prev) != string(MsgBytes(spec.Dir, i-1, spec.Size(i-1))) {
+				res.Recv[i-1].OK = false
+				res.Recv[i-1].Match = -2
+			}
+			prev = b
 			exp := MsgBytes(spec.Dir, i, spec.Size(i))
 			rec := RecvRec{T: now, Len: len(b), OK: string(b) == string(exp), Match: i}
 			if !rec.OK {
@@ -308,6 +332,8 @@ func PrefixVerdict(f *FlowResult) (ok bool, what string) {
 		if !r.OK {
 			kind := "altered/unknown bytes"
 			switch {
+			case r.Match == -2:
+				kind = "the returned slice was overwritten by a later Recv (aliases connection-internal memory)"
 			case r.Match >= 0 && r.Match < i:
 				kind = fmt.Sprintf("duplicate or reordered (equals sent #%d)", r.Match)
 			case r.Match > i:
